@@ -15,17 +15,36 @@ pub struct Drained {
     pub capped: bool,
 }
 
+thread_local! {
+    static NTH: std::cell::Cell<Option<usize>> = const { std::cell::Cell::new(None) };
+}
+/// Partial consumption through `nth` (round 11): inside `f`, `drain` first calls `it.nth(j)` - an adaptor may
+/// override `nth` differently from `next` - and reports the size hint *after* that call; the cells are the item
+/// `nth` returned (if any) followed by everything `next()` still yields.
+pub fn with_nth<R>(j: usize, f: impl FnOnce() -> R) -> R {
+    NTH.with(|c| c.set(Some(j)));
+    let r = f();
+    NTH.with(|c| c.set(None));
+    r
+}
+
 /// Safe consumption: `next()` until `None`, capped at hint + 4096 (DESIGN 2.6).
 pub fn drain<I: Iterator>(mut it: I, dec: impl Fn(&I::Item) -> Cell) -> Drained {
+    let mut cells = Vec::new();
+    if let Some(j) = NTH.with(|c| c.get()) {
+        if let Some(v) = it.nth(j) {
+            cells.push(dec(&v));
+        }
+    }
     let hint = it.size_hint();
     let cap = hint.1.unwrap_or(hint.0).saturating_add(4096);
-    let mut cells = Vec::new();
+    let first = cells.len();
     let mut capped = false;
     loop {
         match it.next() {
             None => break,
             Some(v) => {
-                if cells.len() >= cap {
+                if cells.len() - first >= cap {
                     capped = true;
                     break;
                 }
